@@ -794,6 +794,19 @@ func c06P14(l *core.Ledger, r *rt) {
 		if ifi, ok := in.(*ssa.If); ok && isErrNonNil(ifi, m) != 0 {
 			ended = append(ended, errEdge(ifi, m, true))
 		}
+		// the same test written as a select on the context's Done()
+		if sel, ok := in.(*ssa.Select); ok {
+			for i, st := range sel.States {
+				if st.Dir != types.RecvOnly {
+					continue
+				}
+				if cv, isDone := isDoneOf(st.Chan); isDone && sx.All(sx.Origins(cv), isReqCtx) {
+					if e, found := selectCaseEdge(sel, i); found {
+						ended = append(ended, e)
+					}
+				}
+			}
+		}
 	})
 	isSend := func(n sx.Node) bool {
 		c, ok := n.Instr().(*ssa.Call)
